@@ -183,9 +183,9 @@ class Mesh:
 
 
 def canon_tri(t):
-    """cyclic triple starting at its smallest point (orientation kept)"""
-    k = min(range(3), key=lambda i: (t[i] is None, t[i]))
-    return (t[k], t[(k + 1) % 3], t[(k + 2) % 3])
+    """cyclic triple as its lexicographically smallest rotation (orientation kept; well defined with repeated points)"""
+    key = lambda r: tuple((p is None, p) for p in r)   # noqa: E731
+    return min(((t[k], t[(k + 1) % 3], t[(k + 2) % 3]) for k in range(3)), key=key)
 
 
 def area2(t):
@@ -577,37 +577,6 @@ def d15a_pattern(before, after, op, items):
     return bad_faces > 0 and bad_faces == len({x for t, x in items if t == "anchor-face"})
 
 
-def d15b_pattern(before, after, op):
-    """successful cut_outer_edge on an anchored boundary edge: the second half (the new dart nd3) has no EdgeAnchor"""
-    nd3 = op["nds"][2]
-    return before.anch["a7"] is not None and before.anchor_e(op["e"]) is not None and after.anchor_e(nd3) is None
-
-
-def patch_vertex(line, slot, tok):
-    parts = line.split(" | ")
-    for k, p in enumerate(parts):
-        if p.startswith("a0:"):
-            toks = p.split()
-            toks[1 + slot] = tok
-            parts[k] = " ".join(toks)
-    return " | ".join(parts)
-
-
-def d15c_pattern(before, res, after, wfline, op):
-    """successful cut_outer_edge with spare darts nd3 < nd1: the midpoint is stored by write_vertex(nd1, ..) under the
-    dart id nd1 while the identifier of the new vertex is min(nd1, nd3) = nd3: the new vertex reads as undefined.
-    With the value moved to the identifier, every other clause of the property holds.
-    returns the tags that remain after the repair, or None when the pattern does not apply"""
-    nd1, _nd2, nd3 = op["nds"]
-    l = op["e"]
-    M = mid(before.org(l), before.org(before.b[1][l]))
-    if not (nd3 < nd1 and after.vid(nd1) == nd3 and after.a0[nd3] is None and after.a0[nd1] == M):
-        return None
-    tok = f"({M[0]},{M[1]},0)"
-    fixed = Mesh(patch_vertex(patch_vertex(after.raw, nd3, tok), nd1, "none"))
-    return {t for t, _ in judge(before, res, fixed, wfline, op)}
-
-
 def collapse_expect(before, op, P):
     l = op["e"]
     r = before.b[2][l]
@@ -698,6 +667,20 @@ def d15f_pattern(before, after, op):
     return len(orbits) == 2 and len(pts) == 1 and (v1 - v0, e1 - e0, f1 - f0) == (0, -3, -2)
 
 
+def pinch_checked_half_consistent(before, after, op, res):
+    """in a pinched result, the triangles around the vertex orbit the kernel returned (and checked) have one orientation"""
+    try:
+        vid = int(res.split()[1])
+    except Exception:
+        return False
+    signs = set()
+    for d in after.linked:
+        if after.vid(d) == vid and after.face(d):
+            a2 = area2(tuple(after.org(x) for x in after.face(d)))
+            signs.add(1 if a2 >= 0 else -1)     # signum(+0.0) = 1 in the kernel's test
+    return len(signs) == 1
+
+
 def window_signatures(before, res, after, op, items, wfline="wf true true true"):
     """set of finding signatures explaining the failures of one call; 'unknown' when something is not explained"""
     tags = {t for t, _ in items}
@@ -722,7 +705,10 @@ def window_signatures(before, res, after, op, items, wfline="wf true true true")
             elif rest == {"triangles"} and d15d_pattern(before, after, op):
                 sigs.add("collapse-midpoint-weighted")
                 rest = set()
-            elif rest == {"counts"} and d15f_pattern(before, after, op):
+            elif "counts" in rest and rest <= {"counts", "fan-orientation"} and d15f_pattern(before, after, op) \
+                    and ("fan-orientation" not in rest or pinch_checked_half_consistent(before, after, op, res)):
+                # the post-check only walks the orbit of the identifier it was given: the other half of a pinched vertex is
+                # never examined, so an inverted triangle there is part of the same finding
                 sigs.add("collapse-pinches-boundary")
                 rest = set()
             elif "not-triangles" in rest and d15e_pattern(before, after, op):
@@ -731,18 +717,6 @@ def window_signatures(before, res, after, op, items, wfline="wf true true true")
             if not rest and sigs:
                 return sigs
             return {"unknown"}
-        if ok and kind == "cutout":
-            if tags & {"triangles", "midpoint", "area"}:
-                rest = d15c_pattern(before, res, after, wfline, op)
-                if rest is None:
-                    return {"unknown"}
-                sigs.add("cut-vertex-written-at-dart-id")
-                tags = rest
-            if "anchor-half-edge" in tags and d15b_pattern(before, after, op):
-                sigs.add("cutout-half-edge-anchor-missing")
-                tags = tags - {"anchor-half-edge"}
-            if not tags:
-                return sigs
     except Exception:
         return {"unknown"}
     return {"unknown"}
